@@ -132,10 +132,14 @@ def run_cases(cases, deadline_ms=10000, shards=None, _confirm=True):
         # (a busy machine must not turn into a verdict); batch cases report partial progress and are resumed by
         # their callers instead
         if _confirm:
-            late = [c for c in cases if results[c["id"]].get("how") == "timeout" and "done_outs" not in results[c["id"]]]
-            for c in late[:40]:
+            late = [c for c in cases if results[c["id"]].get("how") == "timeout" and c.get("kind") not in ("front", "scan")]
+            still = 0
+            for k, c in enumerate(late[:40]):
+                if k >= 6 and still == k:
+                    break       # six out of six hang on their own as well: the rest are taken as reported
                 r2 = run_cases([c], deadline_ms=max(30000, 3 * deadline_ms), shards=1, _confirm=False)[c["id"]]
                 r2["confirmed_after_timeout"] = True
+                still += r2.get("how") == "timeout"
                 results[c["id"]] = r2
         return results
     finally:
